@@ -233,7 +233,7 @@ func hangWatch(cur *atomic.Pointer[runMark], limit time.Duration, onHang func(*r
 		}
 		if el > min(staticAfter, limit) && looked != m {
 			looked = m
-			if v := classifyHang(); v.Static && v.Where != "" && cur.Load() == m {
+			if v := classifyHang(); v.artifact() && cur.Load() == m {
 				onHang(m, el, v)
 				return
 			}
@@ -258,8 +258,8 @@ func worker(all []*Scenario, a *Args) int {
 	go hangWatch(&cur, a.hangLimit(), func(m *runMark, el time.Duration, v hangVerdict) {
 		data, _ := json.Marshal(hangReport{Run: m.Run, Scenario: m.Scenario, Seed: m.Seed, Seconds: el.Seconds(), hangVerdict: v})
 		os.WriteFile(a.Out+".hang", data, 0o644)
-		if v.Static {
-			os.Exit(5) // nothing moves: not a verdict about the library (hang.go)
+		if v.artifact() {
+			os.Exit(5) // the simulator is holding back whoever would release the blocked task: not a verdict about the library (hang.go)
 		}
 		os.Exit(4)
 	})
@@ -383,7 +383,7 @@ func replay(all []*Scenario, a *Args) int {
 	var cur atomic.Pointer[runMark]
 	cur.Store(&runMark{Scenario: scn.Name, Seed: rf.Seed, Start: time.Now()})
 	go hangWatch(&cur, a.hangLimit(), func(m *runMark, el time.Duration, v hangVerdict) {
-		if v.Static {
+		if v.artifact() {
 			fmt.Printf("replay: the run did not finish within %.0f s of wall time, and nothing in it moves: %s\nthis engine cannot schedule the scenario on this tree (a task is blocked in an operation the simulator does not control); not a verdict about the library\n", el.Seconds(), v.Where)
 			os.Exit(3)
 		}
